@@ -12,7 +12,7 @@ from __future__ import annotations
 import ast
 
 from ..core import AnalysisError, const_value, norm, walk_own, walk_stmts, names_in
-from ..paths import enum_paths
+from ..paths import enum_paths, canon_test
 from .. import ordtab, tmpl
 from . import sort_common as sc
 from . import c08
@@ -306,6 +306,32 @@ def r09_3(ctx, m):
             guards = guards_of(loop, st)
             sr = tagvar.get("SR", ("?",))[0]
             g_ok = any(pol and (f"{sr} == 0" in norm(t)) for t, pol in guards)
+            # the guard as a truth table over (sn still unknown?, rank == 0?): the store happens in the world (T, T) and in no
+            # world with rank != 0
+            import itertools as _it
+
+            def _truth(t_, a_, b_):
+                if isinstance(t_, ast.BoolOp):
+                    vs = [_truth(v_, a_, b_) for v_ in t_.values]
+                    if any(v_ is None for v_ in vs):
+                        return None
+                    return all(vs) if isinstance(t_.op, ast.And) else any(vs)
+                if isinstance(t_, ast.UnaryOp) and isinstance(t_.op, ast.Not):
+                    v_ = _truth(t_.operand, a_, b_)
+                    return None if v_ is None else (not v_)
+                tx, tp = canon_test(t_, True)
+                if tx == f"{sn_var} is None":
+                    return a_ == tp
+                if tx == f"{sr} == 0":
+                    return b_ == tp
+                return None
+
+            tbl = {}
+            for a_, b_ in _it.product((True, False), repeat=2):
+                vs = [(_truth(t, a_, b_), pol) for t, pol in guards if {sn_var, sr} & {n_.id for n_ in ast.walk(t) if isinstance(n_, ast.Name)}]
+                tbl[(a_, b_)] = None if any(v_ is None for v_, _ in vs) else all(v_ == pol for v_, pol in vs)
+            if all(v_ is not None for v_ in tbl.values()):
+                g_ok = g_ok and tbl[(True, True)] is True and not tbl[(True, False)] and not tbl[(False, False)]
             ctx.check(val_ok and g_ok, "R09.3", pa.where(st), "sn is assigned only from the SN tag of a node whose SR (rank) is 0", key_of(pa, f"sn-assign:{norm(st)}:{[norm(t) for t, _ in guards]}"), guards=[(norm(t), pol) for t, pol in guards])
             # ... and from every such node: nothing but the rank (and "not yet known") decides whether a node may name the
             # contig; a guard on the node's BO / NO tags excludes the reference nodes inside bubbles
